@@ -47,7 +47,15 @@ def seg(rng, lo=1, hi=8):
     return "".join(rng.choice(SEG) for _ in range(rng.randrange(lo, hi))) + rng.choice(("", "", "1", "_x"))
 
 
+LONG_NON_ASCII = [0]
+
+
 def cls(rng):
+    if rng.random() < 0.04:
+        # Java identifiers may use any Unicode letter: long CJK / Cyrillic class names (in a UTF-8 pool their two length prefixes have different
+        # widths once the UTF-16 length is below 128 and the byte length is not)
+        LONG_NON_ASCII[0] += 1
+        return rng.choice(CLS) + "".join(rng.choice("\u754c\u4e2d\u6587\u0416\u0434\u00e9") for _ in range(rng.choice((42, 50, 63, 64, 100, 126, 127, 130))))
     return rng.choice(CLS) + "".join(rng.choice(SEG + CLS + "0123456789_$") for _ in range(rng.randrange(0, 9)))
 
 
@@ -529,6 +537,9 @@ def shard(ctx, arg):
     lo, hi = arg
     for i in range(lo, hi):
         m, data = one_case(ctx, i)
+        if LONG_NON_ASCII[0]:
+            ctx.count("component_names_of_42_to_130_non_ascii_letters", LONG_NON_ASCII[0])
+            LONG_NON_ASCII[0] = 0
         if i % 499 == 0:
             ctx.sample({"case": i, "special": m.special, "package": m.package, "permissions": m.perms, "sdk": m.sdk,
                         "components": {k: [c["name"] for c in v] for k, v in m.components.items()}, "aliases": [(x["name"], x["target"]) for x in m.aliases],
@@ -567,4 +578,5 @@ def run(ctx):
     ctx.require_counter("APK", 500)
     ctx.require_counter("queries", 5000)
     ctx.require_counter("cases_base", 100)
+    ctx.require_counter("component_names_of_42_to_130_non_ascii_letters", 20)
     ctx.min_distinct = 50
